@@ -33,7 +33,7 @@ FLOOR = {"quick": 1200, "thorough": 15000}
 EXHAUSTIVE_NOTE = {"quick": "all 657 colour names each used once (rotating slot)",
                    "thorough": "all 657 colour names x 3 document kinds"}
 
-TAG = re.compile(r"(TT|SL|PH|PF|FN|SR)(\d+)|H(\d+)c(\d+)|d(\d+)c(\d+)|N(\d+)")
+TAG = re.compile(r"(TT|SL|PH|PF|FN|SR)(\d+)|H(\d+)c(\d+)|d(\d+)c(\d+)|N(\d+)|G(\d+)v(\d+)")
 RGB = None
 
 
@@ -195,6 +195,42 @@ def gen_single(rng, pal):
     return spec
 
 
+def gen_pageby(rng, pal):
+    """page_by shown as heading rows, 1..3 levels in columns anywhere in the frame, text colour / background / font
+    given per column: the heading row of a level is drawn with its own column's settings (first row of the
+    setting).  An upper level may be null - also on the rows that open a page -, or the divider."""
+    n = rng.randint(4, 14)
+    nc = rng.randint(3, 6)
+    lv = rng.choice([1, 2, 2, 3])
+    lv = min(lv, nc - 1)
+    df = tagged_df(n, nc)
+    pos = rng.sample(range(nc), lv)
+    keys = G.gen_group_keys(rng, n, lv, maxruns=3, reuse_inner=True)
+    labels = [{} for _ in range(lv)]
+    for l, j in enumerate(pos):
+        vals = []
+        for k in keys:
+            m = labels[l]
+            if k[l] not in m:
+                m[k[l]] = f"G{l}v{len(m)}"
+            vals.append(m[k[l]])
+        if l < lv - 1 and rng.random() < 0.5:
+            t = rng.choice(sorted(set(vals)))
+            nv = rng.choice([None, None, E.DIVIDER])
+            vals = [nv if v == t else v for v in vals]
+        df["cols"][j]["values"] = vals
+    body = {"page_by": [f"N{j}" for j in pos],
+            "text_color": [[pick(rng, pal) for _ in range(nc)]],
+            "text_font": [[rng.randint(1, 10) for _ in range(nc)]]}
+    if rng.random() < 0.5:
+        body["text_background_color"] = [[pick(rng, pal) for _ in range(nc)]]
+    if rng.random() < 0.3:
+        body["pageby_header"] = rng.random() < 0.5
+    spec = {"kind": "table", "df": df, "body": body, "colheader": rng.choice(["default", "none"]),
+            "page": {"nrow": rng.choice([4, 5, 7, 40])}, "title": None}
+    return spec
+
+
 def gen_multi(rng, pals):
     sections = []
     base = 0
@@ -265,6 +301,14 @@ def requests(spec):
                     if f"border_color_{side}" in body:
                         q["b" + side[0]] = E.broadcast(body[f"border_color_{side}"], r, j)
                 req[tag] = q
+        for l, name in enumerate(body.get("page_by") or []):
+            # heading rows: the level's own column, first row of the setting
+            j = [c["name"] for c in df["cols"]].index(name)
+            for v in set(df["cols"][j]["values"]):
+                if isinstance(v, str) and E.TAG_GRP.fullmatch(v):
+                    req[v] = {"fg": E.broadcast(body.get("text_color", ""), 0, j),
+                              "bg": E.broadcast(body.get("text_background_color", ""), 0, j),
+                              "font": E.broadcast(body.get("text_font", 1), 0, j)}
         h = sec.get("colheader", "default")
         if isinstance(h, list):
             for kw in h:
@@ -514,7 +558,10 @@ def run_shard(desc, ctx):
                 check_spec(ctx, big, hook)
             for _ in range(desc["n"]):
                 r = rng.random()
-                if r < 0.5:
+                if r < 0.08:
+                    ctx.count("page_by_heading_documents")
+                    spec = gen_pageby(rng, palette(rng))
+                elif r < 0.5:
                     spec = G.maybe_prior(rng, gen_single(rng, palette(rng)))
                 elif r < 0.8:
                     spec = gen_multi(rng, [palette(rng) for _ in range(rng.randint(2, 4))])
